@@ -6,9 +6,11 @@ mod errs;
 mod ext;
 mod ext_array;
 mod ext_schema;
+mod ext_spec;
 mod model;
 mod ops;
 mod ops_io;
+mod ops_canon;
 mod val;
 
 use std::collections::HashMap;
@@ -24,6 +26,9 @@ fn main() {
         let mut ids: Vec<&u32> = table.keys().collect();
         ids.sort();
         for id in ids {
+            if *id >= 100000 {
+                continue;
+            }
             let e = &table[id];
             writeln!(out, "{}\t{}\t{}\t{}", id, (e.describe)(), if (e.size_zero)() { 1 } else { 0 }, e.rust).unwrap();
         }
